@@ -28,6 +28,7 @@ import Skc.Tie.electre2_strong
 import Skc.Tie.electre2_weak
 import Skc.Props.C03
 import Skc.Props.C04
+import Skc.Props.C05
 import Skc.Props.C06
 import Skc.Props.C08
 import Skc.Props.C11
@@ -142,6 +143,31 @@ theorem rank_values_reverse (v : Vec n α) (i j : Nat) (hi : i < (List.ofFn v).l
       (List.ofFn v)[j] < (List.ofFn v)[i] := by
   have h := C03.rankValues_reverse_lt_iff (List.ofFn v) i j hi hj
   simpa only [tie_rank_values] using h
+/-! ### C05: the source-level kernels do not depend on how the problem is written down -/
+
+/-- re-listing the criteria (with their objectives and weights) leaves the WSM scores unchanged -/
+theorem wsm_criteria_relisted (A : Mat m n α) (w : Vec n α) (τ : Equiv.Perm (Fin n)) :
+    (Gen.wsm ⟨fun i j => A i (τ j)⟩ ⟨fun j => w (τ j)⟩).v = (Gen.wsm ⟨A⟩ ⟨w⟩).v := by
+  rw [tie_wsm, tie_wsm]; exact C05.wsm_col_perm A w τ
+/-- re-listing the alternatives moves the RatioMOORA scores with them -/
+theorem ratio_alternatives_relisted (A : Mat m n α) (o : Vec n Obj) (w : Vec n α) (σ : Equiv.Perm (Fin m)) (i : Fin m) :
+    (Gen.ratio ⟨fun i => A (σ i)⟩ (objs o) ⟨w⟩).v i = (Gen.ratio ⟨A⟩ (objs o) ⟨w⟩).v (σ i) := by
+  unfold objs; rw [tie_ratio, tie_ratio]; exact C05.ratio_row_perm A o w σ i
+theorem ratio_criteria_relisted (A : Mat m n α) (o : Vec n Obj) (w : Vec n α) (τ : Equiv.Perm (Fin n)) :
+    (Gen.ratio ⟨fun i j => A i (τ j)⟩ (objs (fun j => o (τ j))) ⟨fun j => w (τ j)⟩).v = (Gen.ratio ⟨A⟩ (objs o) ⟨w⟩).v := by
+  unfold objs; rw [tie_ratio, tie_ratio]; exact C05.ratio_col_perm A o w τ
+/-- a common factor on the weights multiplies the WSM / RatioMOORA scores by it (so the ranking is unchanged for a positive factor) -/
+theorem wsm_weights_scaled (A : Mat m n α) (w : Vec n α) (c : α) (i : Fin m) :
+    (Gen.wsm ⟨A⟩ ⟨fun j => c * w j⟩).v i = c * (Gen.wsm ⟨A⟩ ⟨w⟩).v i := by
+  rw [tie_wsm, tie_wsm]; exact C05.wsm_weight_scale A w c i
+theorem ratio_weights_scaled (A : Mat m n α) (o : Vec n Obj) (w : Vec n α) (c : α) (i : Fin m) :
+    (Gen.ratio ⟨A⟩ (objs o) ⟨fun j => c * w j⟩).v i = c * (Gen.ratio ⟨A⟩ (objs o) ⟨w⟩).v i := by
+  unfold objs; rw [tie_ratio, tie_ratio]; exact C05.ratio_weight_scale A o w c i
+/-- re-listing the criteria leaves the ELECTRE concordance index of every pair unchanged -/
+theorem concordance_criteria_relisted (A : Mat m n α) (o : Vec n Obj) (w : Vec n α) (τ : Equiv.Perm (Fin n)) (a b : Fin m) :
+    (Gen.concordance ⟨fun i j => A i (τ j)⟩ (objs (o ∘ τ)) ⟨w ∘ τ⟩).v a b = (Gen.concordance ⟨A⟩ (objs o) ⟨w⟩).v a b := by
+  unfold objs; rw [tie_concordance, tie_concordance]; exact C05.concordance_col_perm A o w τ a b
+
 /-! ### C04, the refusal clause: when do the decision makers raise `ValueError`, as read from their `_evaluate_data` -/
 
 theorem wsm_refuses_iff (A : Mat m n α) (o : Vec n Obj) :
